@@ -22,6 +22,14 @@ let rec blocks l = match l with [] -> [] | _ ->
   let (b, r) = take 16 l [] in b :: blocks r
 
 let spec = ref false
+let envint name d = try int_of_string (Sys.getenv name) with _ -> d
+let buf () = nat_of_int (envint "WV_BUF" 4)
+let hbuf () = nat_of_int (envint "WV_HBUF" 4)
+let res_bytes = function
+  | Ok b -> "OK " ^ hex b
+  | Fail c -> "FAIL " ^ string_of_int (int_of_n c)
+  | Crash w -> "CRASH " ^ string_of_int (int_of_nat w)
+  | Hang -> "HANG"
 
 let alg_of i = match Model.get_hasher (n_of_int i) with Some a -> a | None -> failwith "alg"
 
@@ -90,6 +98,22 @@ let handle (w : string list) : string =
             | KeyOk k -> "OK " ^ hex k
             | KeyOverflow n -> "OVERFLOW " ^ string_of_int (int_of_nat n)
             | KeyBad -> "BAD")
+  | "enc" :: cm :: hm :: t :: k :: seed :: plain :: _ ->
+      let cm = n_of_int (int_of_string cm) and hm = n_of_int (int_of_string hm) and t = nat_of_int (int_of_string t) in
+      let k = unhex k and seed = unhex seed and plain = unhex plain in
+      if !spec then (match Model.wenc_spec (buf ()) t plain k cm hm seed with Some f -> "OK " ^ hex f | None -> "NONE")
+      else res_bytes (Model.enc (buf ()) (hbuf ()) t plain k cm hm seed)
+  | ["encw"; cm; hm; t; k; seed; plain] ->
+      let cm = n_of_int (int_of_string cm) and hm = n_of_int (int_of_string hm) and t = nat_of_int (int_of_string t) in
+      (match Model.enc_writes (buf ()) (hbuf ()) t (unhex plain) (unhex k) cm hm (unhex seed) with
+       | Ok ws -> "OK " ^ String.concat "," (List.map (fun (o, b) -> Printf.sprintf "%d:%s" (int_of_nat o) (hex b)) ws)
+       | Fail c -> "FAIL " ^ string_of_int (int_of_n c) | Crash w -> "CRASH " ^ string_of_int (int_of_nat w) | Hang -> "HANG")
+  | ["dec"; t; k; f] ->
+      res_bytes (Model.dec (buf ()) (hbuf ()) (nat_of_int (int_of_string t)) (unhex f) (unhex k))
+  | ["ver"; t; k; f] ->
+      (match Model.verify (hbuf ()) (unhex f) (unhex k) with
+       | Ok c -> if int_of_n c = 0 then "OK -" else "FAIL " ^ string_of_int (int_of_n c)
+       | Fail c -> "FAIL " ^ string_of_int (int_of_n c) | Crash w -> "CRASH " ^ string_of_int (int_of_nat w) | Hang -> "HANG")
   | _ -> "?"
 
 let () =
